@@ -84,6 +84,10 @@ type floatTask struct {
 func floatToFixed(cv *dyn.ConvOp) bool { return cv.S.Kind == dyn.KFloat && cv.D.Kind != dyn.KFloat }
 
 func runC08(c *core.Ctx) {
+	if isDigestMode(c.Mode) {
+		convDigests(c, floatToFixed)
+		return
+	}
 	var tasks []floatTask
 	total := uint64(2 * f32Half)
 	for _, cv := range dyn.AllConvs() {
